@@ -228,7 +228,8 @@ func newFinishedHash(version uint16, cipherSuite *cipherSuite) finishedHash {
 
 	if version == VersionGMSSL {
 		prf = prfAndHashForGM()
-		return finishedHash{sm3.New(), sm3.New(), nil, nil, buffer, version, prf}
+		// (finishedHash.Write feeds the MD5 pair for every version below TLS 1.2, which includes 0x0101)
+		return finishedHash{sm3.New(), sm3.New(), new(nilMD5Hash), new(nilMD5Hash), buffer, version, prf}
 	} else {
 		var hash crypto.Hash
 		prf, hash = prfAndHashForVersion(version, cipherSuite)
